@@ -249,7 +249,7 @@ def _apalache(sc, cinit, inv, timeout=300):
                                     "--out-dir=" + out, "SerialApa.tla"], sc.dir, timeout,
                                    env={"JVM_ARGS": "-Xmx2g", "TMPDIR": sc.dir})   # the launcher puts its SANY temp dir under $TMPDIR
     if timed_out:
-        raise T.MachineryError("apalache timed out on %s/%s" % (cinit, inv))
+        return None, "apalache timed out on %s/%s" % (cinit, inv)
     if "The outcome is: NoError" in txt:
         return True, None
     if "The outcome is: Error" in txt:
@@ -260,7 +260,7 @@ def _apalache(sc, cinit, inv, timeout=300):
             cex = {k: int(v["#bigint"]) if isinstance(v, dict) else int(v) for k, v in st.items() if k in ("a", "b", "d")}
             break
         return False, cex
-    raise T.MachineryError("apalache gave no verdict on %s/%s\n%s" % (cinit, inv, txt[-1200:]))
+    return None, "apalache gave no verdict on %s/%s: %s" % (cinit, inv, txt[-300:].replace("\n", " "))
 
 
 def _serial_symbolic(sc):
@@ -271,8 +271,11 @@ def _serial_symbolic(sc):
             ("CInit32", "W_TotalEverywhere"), ("CInit16", "W_NumericOrder"), ("CInit32", "W_NumericSortKey")]
     with ThreadPoolExecutor(max_workers=len(jobs)) as ex:
         res = list(ex.map(lambda j: _apalache(sc, *j), jobs))
-    if res[0][0] is None:
-        return {"serial_symbolic": "apalache-mc not found: lemmas decided for the small modulus by TLC only"}, []
+    unavailable = [c for h, c in res if h is None]
+    if unavailable:
+        # the solver stage is an addition: without it the small-modulus TLC result decides, as before
+        return {"serial_symbolic": "Apalache stage unavailable (%s): lemmas decided for the small modulus by TLC only"
+                                   % (unavailable[0] or "apalache-mc not on PATH")}, []
     pairs = []
     for (cinit, inv), (holds, cex) in zip(jobs, res):
         if inv == "AllLemmas" and not holds:
